@@ -41,6 +41,10 @@ CHECKS = {
    text="All nested dict/list/tuple structures of a grammar (depth<=3, empty dict/list/tuple at every position, leaves (N,), (N,4), (N,2,2)) x N in {1,2,5(,7)} x batch in {1,2,3,N-1,N,N+1,2N}: split content, count, merge round trip, batch_call/batch_sum = whole-sample application; ALL 2^N boolean masks; every key path; N=1001 with batch 1 (eager and lazy); files: text/npy/npz, every dat_order permutation, every composition into 1-3 files, both savetxt implementations, save_data/save_dataz; LazyCall iteration/eval/merge vs eager for every dict structure, with and without extra entries.",
    note="Reference = numpy slicing/concatenation/indexing, exact equality. ROOT input not exercised.",
    technique="bounded-exhaustive enumeration of data structures x sizes x batch sizes x masks against a numpy reference"),
+ "C20": dict(level="model_checking", ref="4-C20",
+   text="(a) Explicit-state exploration of the accept-reject loop (multi_sampling, as used by generate_toy / generate_toy_p / ARGenerator) under an environment owned by the harness: every sequence of per-batch weight patterns from a 6-element menu up to depth 3 (quick) / 4 (thorough) x (N, max_N, force, initial bound, importance function); every batch (transition) checked for bound >= weights and kept = {u*bound < w}, every re-thinning for weight independence, every final state for the exact count and for each returned event having been accepted under a bound >= its weight; end-to-end exact count / physical events on a real model; interp_sample_f. (b) LinearInterp on 7 grids (flat, steep, zero nodes, 2-6 nodes), BWGenerator, InterpND / InterpNDHist in 1-D and 2-D on uniform and non-uniform grids: CDF inversion on u lattices, range, per-cell mass vs the exact integral of the interpolant under a stratified script, within-cell kernel inversion. (c) adaptive bins for N=4..12, 3 orderings, 8 layouts incl. ties and 2-D. (d) weighted histograms: sum w and sum w^2 for 4 weight sets x 4 binnings.",
+   note="'Follows the model density' and the all-seeds statistical statements are decided only through their algebraic sufficient conditions under owned random numbers; no statistical test is run.",
+   technique="explicit-state exploration of the sampler loop with an owned environment (all menu sequences to a depth) + bounded-exhaustive lattices"),
 }
 
 NA_REASON = "check not built yet in this round (planned in DESIGN.md section 4)"
